@@ -36,25 +36,32 @@ SumOf(n, base) == ExactAdd(ExactMul(DNat(n), base), DNat((n * (n - 1)) \div 2))
 X == Id(<<120>>)
 Fn(name, args) == <<Id(name), LP>> \o args \o <<RP>>
 NI(k) == IntT((IF k < 0 THEN <<45>> ELSE <<>>) \o NatCps(IF k < 0 THEN 0 - k ELSE k))
-\* (expression, admissible outcomes) for an array of n descending consecutive integers from base
-Expect(n, base) == <<
-  [e |-> Fn(<<115,117,109>>, <<X>>), adm |-> Round(SumOf(n, base))],
-  [e |-> Fn(<<97,118,103>>, <<X>>), adm |-> Quot(SumOf(n, base), DNat(n))],
-  [e |-> Fn(<<109,97,120>>, <<X>>), adm |-> Round(Plus(base, n - 1))],
-  [e |-> Fn(<<109,105,110>>, <<X>>), adm |-> Round(base)],
-  [e |-> Fn(<<115,111,114,116>>, <<X>>) \o <<LB, NI(0), RB>>, adm |-> Round(base)],
-  [e |-> Fn(<<115,111,114,116>>, <<X>>) \o <<LB, NI(1), RB>>, adm |-> Round(Plus(base, 1))],
-  [e |-> Fn(<<115,111,114,116>>, <<X>>) \o <<LB, NI(0 - 1), RB>>, adm |-> Round(Plus(base, n - 1))],
-  [e |-> Fn(<<115,111,114,116>>, <<X>>) \o <<LB, NI(n \div 2), RB>>, adm |-> Round(Plus(base, n \div 2))],
-  [e |-> Fn(<<115,111,114,116>>, <<X>>) \o <<EqT>> \o Fn(<<114,101,118,101,114,115,101>>, <<X>>), adm |-> {JTrue}],
-  [e |-> Fn(<<115,111,114,116,95,98,121>>, <<X, Comma, AmpT, CurT>>) \o <<LB, NI(2), RB>>, adm |-> Round(Plus(base, 2))],
-  [e |-> Fn(<<109,97,120,95,98,121>>, <<X, Comma, AmpT, CurT>>), adm |-> Round(Plus(base, n - 1))],
+\* (expression, admissible outcomes) for an array holding base .. base + n - 1, each
+\* times 10^sc; desc: in descending order (otherwise shuffled: element i is
+\* base + (7 i mod n), or any other order -- the entries below marked ~desc do
+\* not depend on it)
+Sc(d, sc) == IF IsZero(d) THEN d ELSE [d EXCEPT !.e = @ + sc]
+Expect(n, base, desc, sc) == LET R(d) == Round(Sc(d, sc)) IN <<
+  [e |-> Fn(<<115,117,109>>, <<X>>), adm |-> R(SumOf(n, base))],
+  [e |-> Fn(<<97,118,103>>, <<X>>), adm |-> Quot(Sc(SumOf(n, base), sc), DNat(n))],
+  [e |-> Fn(<<109,97,120>>, <<X>>), adm |-> R(Plus(base, n - 1))],
+  [e |-> Fn(<<109,105,110>>, <<X>>), adm |-> R(base)],
+  [e |-> Fn(<<115,111,114,116>>, <<X>>) \o <<LB, NI(0), RB>>, adm |-> R(base)],
+  [e |-> Fn(<<115,111,114,116>>, <<X>>) \o <<LB, NI(1), RB>>, adm |-> R(Plus(base, 1))],
+  [e |-> Fn(<<115,111,114,116>>, <<X>>) \o <<LB, NI(0 - 1), RB>>, adm |-> R(Plus(base, n - 1))],
+  [e |-> Fn(<<115,111,114,116>>, <<X>>) \o <<LB, NI(n \div 2), RB>>, adm |-> R(Plus(base, n \div 2))],
+  [e |-> Fn(<<115,111,114,116>>, <<X>>) \o <<EqT>> \o Fn(<<114,101,118,101,114,115,101>>, <<X>>), adm |-> IF desc THEN {JTrue} ELSE {}],
+  [e |-> Fn(<<115,111,114,116>>, <<X>>) \o <<EqT>> \o Fn(<<115,111,114,116>>, Fn(<<114,101,118,101,114,115,101>>, <<X>>)), adm |-> {JTrue}],
+  [e |-> Fn(<<115,117,109>>, <<X>>) \o <<EqT>> \o Fn(<<115,117,109>>, Fn(<<115,111,114,116>>, <<X>>)), adm |-> {JTrue}],
+  [e |-> Fn(<<115,117,109>>, <<X>>) \o <<EqT>> \o Fn(<<115,117,109>>, Fn(<<114,101,118,101,114,115,101>>, <<X>>)), adm |-> {JTrue}],
+  [e |-> Fn(<<115,111,114,116,95,98,121>>, <<X, Comma, AmpT, CurT>>) \o <<LB, NI(2), RB>>, adm |-> R(Plus(base, 2))],
+  [e |-> Fn(<<109,97,120,95,98,121>>, <<X, Comma, AmpT, CurT>>), adm |-> R(Plus(base, n - 1))],
   [e |-> Fn(<<108,101,110,103,116,104>>, <<X>>), adm |-> {JInt(n)}],
-  [e |-> <<X, LB, NI(0), RB, MinusT, X, LB, NI(0 - 1), RB>>, adm |-> {JInt(n - 1)}],
+  [e |-> <<X, LB, NI(0), RB, MinusT, X, LB, NI(0 - 1), RB>>, adm |-> IF desc /\ sc = 0 THEN {JInt(n - 1)} ELSE {}],
   [e |-> Fn(<<99,111,110,116,97,105,110,115>>, <<X, Comma, X, LB, NI(n \div 2), RB>>), adm |-> {JTrue}],
-  [e |-> Fn(<<108,101,110,103,116,104>>, <<X, Filt, CurT, GtT, RootT, Dot, X, LB, NI(n \div 2), RB, RB>>), adm |-> {JInt(n \div 2)}],
+  [e |-> Fn(<<108,101,110,103,116,104>>, <<X, Filt, CurT, GtT, RootT, Dot, X, LB, NI(n \div 2), RB, RB>>), adm |-> IF desc THEN {JInt(n \div 2)} ELSE {}],
   [e |-> Fn(<<115,111,114,116>>, <<X>>) \o <<LB, NI(1), RB, GtT>> \o Fn(<<115,111,114,116>>, <<X>>) \o <<LB, NI(0), RB>>, adm |-> {JTrue}],
-  [e |-> Fn(<<115,117,109>>, <<X, LB, Colon, NI(2), RB>>), adm |-> Round(ExactAdd(Plus(base, n - 1), Plus(base, n - 2)))] >>
+  [e |-> Fn(<<115,117,109>>, <<X, LB, Colon, NI(2), RB>>), adm |-> IF desc THEN R(ExactAdd(Plus(base, n - 1), Plus(base, n - 2))) ELSE {}] >>
 
 \* small-instance cross-check of the closed forms against the language layer
 ToJ(v) == IF v.t = "num" /\ "ds" \in DOMAIN v
@@ -62,18 +69,28 @@ ToJ(v) == IF v.t = "num" /\ "ds" \in DOMAIN v
                IN Num((IF v.neg THEN 0 - 1 ELSE 1) * NV(v.ds), v.e)
           ELSE v
 SmallCheck ==
-  \A n \in 3..6, b \in {0, 7, 0 - 3} :
+  \A n \in {3, 4, 5, 6, 9}, b \in {0, 7, 0 - 3} :
      LET base == IF b < 0 THEN Negate(DNat(0 - b)) ELSE DNat(b)
          doc == Obj(<<Mem(<<120>>, Arr([i \in 1..n |-> JInt(b + n - i)]))>>)
-         ex == Expect(n, base)
-     IN \A i \in 1..Len(ex) : ex[i].adm = {} \/
-           { ToJ(o) : o \in ex[i].adm } = Admissible(ex[i].e, doc)
+         shuf == Obj(<<Mem(<<120>>, Arr([i \in 1..n |-> Num(b + ((7 * (i - 1)) % n), 0 - 2)]))>>)
+         ex == Expect(n, base, TRUE, 0)
+         ex2 == Expect(n, base, FALSE, 0 - 2)
+     IN /\ \A i \in 1..Len(ex) : ex[i].adm = {} \/ { ToJ(o) : o \in ex[i].adm } = Admissible(ex[i].e, doc)
+        /\ \A i \in 1..Len(ex2) : ex2[i].adm = {} \/ { ToJ(o) : o \in ex2[i].adm } = Admissible(ex2[i].e, shuf)
 
 Check == idx > 0 =>
   LET n == SizeSeq[bucket]  base == Bases[idx]
-      ex == SelectSeq(Expect(n, base), LAMBDA r : r.adm # {})
-      case == [p |-> Prop, kind |-> "bigarr", n |-> n, base |-> NumV(base), carriers |-> Carriers,
+      ex == SelectSeq(Expect(n, base, TRUE, 0), LAMBDA r : r.adm # {})
+      case == [p |-> Prop, kind |-> "bigarr", n |-> n, base |-> NumV(base), carriers |-> Carriers, mult |-> 1, scale |-> 0,
                multi |-> { [expr |-> Render(ex[i].e), adm |-> ex[i].adm] : i \in 1..Len(ex) }]
+      \* shuffled, scaled by 10^-2, carriers uniform or cycling element by element
+      ex2 == SelectSeq(Expect(n, base, FALSE, 0 - 2), LAMBDA r : r.adm # {})
+      case2 == [p |-> Prop, kind |-> "bigarr", n |-> n, base |-> NumV(base), carriers |-> <<"json", "decimal", "cycle">>, mult |-> 7, scale |-> 0 - 2,
+                multi |-> { [expr |-> Render(ex2[i].e), adm |-> ex2[i].adm] : i \in 1..Len(ex2) }]
+      ex3 == SelectSeq(Expect(n, base, FALSE, 0), LAMBDA r : r.adm # {})
+      case3 == [p |-> Prop, kind |-> "bigarr", n |-> n, base |-> NumV(base), carriers |-> Carriers \o <<"cycle">>, mult |-> 7, scale |-> 0,
+                multi |-> { [expr |-> Render(ex3[i].e), adm |-> ex3[i].adm] : i \in 1..Len(ex3) }]
   IN /\ Emit => PrintT("CASE " \o ToJson(case))
+     /\ (Emit /\ n % 7 # 0) => PrintT("CASE " \o ToJson(case2)) /\ PrintT("CASE " \o ToJson(case3))
      /\ Named(bucket # 1 \/ idx # 1 \/ SmallCheck, "FormulasAgreeWithEval")
 =============================================================================
